@@ -85,7 +85,7 @@ def transform_case(rng, case, tkind):
         c2 = OptCase(B @ Q, case.kind, costs=case.costs, gqr=dict(case.gqr))
         return c2, (lambda r: r), {"transform": k, "Q": Q.tolist()}
     if tkind == "scale":
-        a = 2.0 ** rng.randint(-3, 4)
+        a = 2.0 ** rng.choice([-3, -2, -1, 1, 2, 3, 4, -70, -60, -40, -20, 20, 40, 60])   # no magnitude is special
         c2 = OptCase(B * a, case.kind, costs=None if case.costs is None else case.costs * a, gqr=dict(case.gqr))
         return c2, (lambda r: r), {"transform": "scale", "factor": a}
     # relabel sensors: new sensor i is old sensor pi[i]
